@@ -153,6 +153,11 @@ DIMS = [
     ({'isVariableSize': 'true', 'size': 'N', 'size2': 'M'}, False, (True, True, 'u32')),      # limited, two dimensions: storage N*M
     ({'isVariableSize': 'true', 'size': 'N', 'size2': 'M'}, True, (True, False, 'u32')),       # message tail: dynamic, no storage limit
     ({'size': 'N', 'size2': 'M'}, True, (False, True, None)),
+    # the array is not the last member (a 4th element True appends a member after it): in a message every variable-size
+    # array is dynamic, in a struct it stays limited
+    ({'isVariableSize': 'true', 'size': 'N'}, True, (True, False, 'u32'), True),
+    ({'isVariableSize': 'true', 'size': 'N'}, False, (True, True, 'u32'), True),
+    ({'size': 'N'}, True, (False, True, None), True),
 ]
 
 
@@ -160,11 +165,17 @@ def dimension_forms(idx, n, m):
     """every documented <dimension> form maps to the documented member form, with the numeric size N (N*M for size2)"""
     from prophyc import model
     from prophyc.parsers import isar
-    attrs, as_message, (bound, sized, sizer_t) = DIMS[idx]
-    s = _struct('X', [_member('pre', 'u8'), _member('v', 'u16', attrs)], tag='message' if as_message else 'struct')
+    attrs, as_message, (bound, sized, sizer_t) = DIMS[idx][:3]
+    has_post = len(DIMS[idx]) > 3 and DIMS[idx][3]
+    s = _struct('X', [_member('pre', 'u8'), _member('v', 'u16', attrs)] + ([_member('post', 'u8')] if has_post else []),
+                tag='message' if as_message else 'struct')
     node = isar.make_struct(s, last_member_array_is_dynamic=as_message)
     nodes, _ = model.evaluate_model([model.Constant('N', str(n)), model.Constant('M', str(m)), node])
-    ms = node.members
+    ms = list(node.members)
+    if has_post:
+        if ms[-1].name != 'post':
+            return False
+        ms = ms[:-1]
     v = ms[-1]
     if bool(v.bound) != bound or bool(v.size) != sized:
         return False
